@@ -85,8 +85,8 @@ theorem no_lookahead_leaf (ind : Ind F) (hl : IsLeaf ind) (K : Contract ind)
   rw [hk, b] at a
   exact (Except.ok.inj a).symm
 
-/-- **C02, partial: all covered kinds** (`Covered`: every shipped leaf class except the Amorph
-wrapper), base timeframe (`tf = none`) or collapsing timeframe without fill: closed candles of an
+/-- **C02, partial: all covered kinds** (`Covered`: every shipped leaf class, the Amorph wrapper of
+the pattern / movement functions included), base timeframe (`tf = none`) or collapsing timeframe without fill: closed candles of an
 earlier snapshot are a prefix of every later snapshot. -/
 theorem C02_partial (tf : Option Int) (htf : ∀ t, tf = some t → 0 < t) (k : Kind F) (name : String)
     (round : Nat) (hk : Covered name k) (init : List (Candle F)) (chunks₁ chunks₂ : List (List (Candle F)))
